@@ -50,11 +50,22 @@ def generate(rng, tier):
             texts.append(b"[" * (n // 2) + b'"' + b"\\" * (n - n // 2))
             texts.append(b" " * n)
             texts.append((b'{"k' + b"\\" * (n % 7) + b'":[1,2,{"z":"') [: n] if n else b"")
+    # pretty-printed texts (blank runs reaching / crossing the ends of cached 64-byte whitespace blocks), whole and truncated anywhere
+    pretty = set()
+    for t in G.pretty_docs(rng, quick):
+        if len(t) <= 400:
+            texts.append(t)
+            pretty.add(t)
+            for _ in range(2 if quick else 12):
+                texts.append(t[: rng.randrange(1, len(t))])
     texts += [b"", b'{"\\x":1}', b'{"a\\', b'{"a\\u12', b'{"\\ud800":1}', b'"', b"[", b"{", b'{"a":', b'[1,', b"tru", b"nul", b"f", b"-"]
     for t in texts:
         ps = c10.paths_of(rng, t) if rng.random() < 0.3 else [[]]
         cand = [[], ["k61"], ["n0"], ["n1"], ["k61", "n0"], ["n0", "k61"], ["k" + b"a\nb".hex()], rng.choice(ps)]
-        for p in (rng.sample(cand, 3) if quick else cand):
+        if t in pretty:
+            allp = c10.paths_of(rng, t)
+            cand = cand + (rng.sample(allp, min(len(allp), 6 if quick else 40)))
+        for p in (rng.sample(cand, 3) if quick and t not in pretty else cand):
             cases.append({"lines": [f"ondemand {rng.choice(['heap', 'page'])} {G.hx(t)} " + " ".join(p)], "cls": "len%s" % (len(t) if len(t) < 3 else ("<=33" if len(t) <= 33 else "<=67" if len(t) <= 67 else ">67")),
                           "nontrivial": len(t) >= 1})
     return cases
